@@ -353,6 +353,8 @@ func runC36(r *core.R) {
 			}
 		}
 	}
+	// outlines written by the harness in every destination style
+	c36Foreign(r)
 	// corrupted outlines: every single pointer reassignment
 	fields := []string{"Next", "First", "Parent", "Prev", "Last"}
 	type cc struct {
